@@ -2,13 +2,13 @@ SPECIFICATION Spec
 CONSTANTS
   NF = 2
   MaxLen = 12
-  Kinds = {"mod", "add", "addempty", "del", "rename", "renmod", "copy", "modeonly", "modemod", "bin", "binadd", "bare"}
+  Kinds = {"mod", "add", "addempty", "del", "rename", "renmod", "copy", "modeonly", "modemod", "bin", "binadd", "bare", "modebin", "renmode"}
   MaxHunks = 2
   MaxBody = 3
   Preamble = FALSE
   MaxConf = 1
   Buf = 1
-  Fixes = {"D1", "D14", "D2", "D18", "D19", "D20"}
+  Fixes = {"D1", "D14", "D2", "D18", "D19", "D20", "D21"}
   ReplayLen = 12
 INVARIANTS RowsOnceInOrder Lag PrefixStable Boundary ReplaySections
 CONSTRAINT OneSection
